@@ -785,6 +785,7 @@ def check_composed(case, srv, stats):
     got = values(resp, desc)
     with mp.workdps(40):
         for pt, g in zip(pts, got):
+            cond = mpf(0)
             if kind == "mix":
                 w = [mpf(v) for v in case["w"]]
                 tot = mp.fsum(w)
@@ -797,17 +798,25 @@ def check_composed(case, srv, stats):
                             parts = None
                             break
                         continue
-                    parts.append(mp.log(w[j] / tot) + mp.fsum(fam.terms(tuple(ps[j]), mpf(x))))
+                    v, _, cnd = ref_logpdf(fam, tuple(ps[j]), x)
+                    cond += cnd
+                    parts.append(mp.log(w[j] / tot) + v)
                 if not parts:
                     continue
                 m = max(parts)
                 ref = m + mp.log(mp.fsum(mp.exp(t - m) for t in parts))
                 sc = 1 + abs(ref) + max(abs(t) for t in parts)
             else:
-                terms = [t for i in range(n) for t in F[comp[i]].terms(tuple(ps[comp[i]]), mpf(pt[i]))]
+                terms = []
+                for i in range(n):
+                    v, _, cnd = ref_logpdf(F[comp[i]], tuple(ps[comp[i]]), pt[i])
+                    cond += cnd
+                    terms += F[comp[i]].terms(tuple(ps[comp[i]]), mpf(pt[i]))
                 ref = mp.fsum(terms)
                 sc = 1 + mp.fsum(abs(t) for t in terms)
-            if math.isnan(g) or abs(mpf(g) - ref) > mpf(10) ** -9 * sc:
+            if cond == mp.inf:
+                continue   # within one rounding of an end of the support of a factor
+            if math.isnan(g) or abs(mpf(g) - ref) > mpf(10) ** -9 * sc + 16 * cond:
                 raise Violation("%s: LogPdf(%r) = %r, the log-density of the composition is %s" % (desc, pt, g, mp.nstr(ref, 17)))
     # one coordinate outside the support of its factor: -Inf (or a refusal)
     if kind != "mix":
